@@ -14,7 +14,7 @@ ASSUMPTIONS = ["rotations given as zxz Euler triples of arbitrary angles (every 
                "lemmas proved by the solver from hints in the same run and then instantiated (coverage.lemmas): quaternion/trace identity, Cauchy-Schwarz and the Gram determinant for unit quaternions, orthogonality of Euler matrices"]
 OUTSIDE = ["c_symmetry > 1 branches (np.mod on angle values)",
            "in-plane distance 'vanishes for equal orientations' is decided for the same rotation object / same Euler triple (as_euler is a function), not for two different triples of one rotation"]
-WITNESS_ONLY = ["float-only: equal rotations written with phi / phi+360 (opposite-sign quaternions) have distance 0 and never NaN - evaluated by the concrete run on the 45-degree Euler lattice (h_angular_equal); over the reals the clause is implied by zero_for_equal_rotations"]
+WITNESS_ONLY = ["float-level: the cone distance of nearly parallel / antiparallel axes equals the tilt within 2e-6 degrees (h_cone, concrete run, tilts 1e-3 .. 179.99)", "float-only: equal rotations written with phi / phi+360 (opposite-sign quaternions) have distance 0 and never NaN - evaluated by the concrete run on the 45-degree Euler lattice (h_angular_equal); over the reals the clause is implied by zero_for_equal_rotations"]
 BOUNDS = {"quick": {"batch": "1..2"}, "thorough": {"batch": "1..3"}}
 EXPECTED_EXCEPTIONS = ()
 OPTS = {"qtimeout": 6.0, "otimeout": 40.0}
@@ -202,14 +202,27 @@ def h_angular_symmetric(env):
     env.check("symmetric", env.eq(c1, c2))
 
 
-def h_cone(env, n=1):
+def h_cone(env, n=1, via="direct"):
     g = env.module("geom")
     t1 = [_tri(env, "a%d" % i) for i in range(n)]
     t2 = [_tri(env, "b%d" % i) for i in range(n)]
     srot = g.srot
-    r1 = srot.from_euler("zxz", _arr(env, t1), degrees=True)
-    r2 = srot.from_euler("zxz", _arr(env, t2), degrees=True)
-    cone = g.cone_distance(r1, r2)
+    if via == "direct":
+        r1 = srot.from_euler("zxz", _arr(env, t1), degrees=True)
+        r2 = srot.from_euler("zxz", _arr(env, t2), degrees=True)
+        cone = g.cone_distance(r1, r2)
+    elif via == "compare_cone":            # the selector of compare_rotations (forwarded by the neighbour analysis)
+        cone = g.compare_rotations(_arr(env, t1), _arr(env, t2), rotation_type="cone_distance")
+    else:
+        cone = g.compare_rotations(_arr(env, t1), _arr(env, t2))[1]
+    if env.mode == "conc" and via == "direct":
+        # float-level clause: nearly parallel / nearly antiparallel axes (arccos is steep at +-1): the reported angle is the
+        # tilt itself.  Evaluated by the concrete run only.
+        for t in (1e-3, 1e-2, 0.1, 1.0, 179.0, 179.9, 179.99):
+            ra = srot.from_euler("zxz", np.array([[20.0, 35.0, -70.0]]), degrees=True)
+            rb = ra * srot.from_euler("zxz", np.array([[0.0, t, 0.0]]), degrees=True)
+            got = float(np.asarray(g.cone_distance(ra, rb), dtype=float)[0])
+            env.check("small_tilt_cone_is_the_tilt", abs(got - t) <= 2e-6)
     for i in range(n):
         z1 = [R_zxz(env, *t1[i])[k][2] for k in range(3)]
         z2 = [R_zxz(env, *t2[i])[k][2] for k in range(3)]
@@ -303,7 +316,7 @@ def h_angles_from_normals(env, case="generic", order="zxz"):
 def jobs(tier, seed):
     j = [("h_angular", {"n": 1}), ("h_angular", {"n": 2}), ("h_angular", {"n": 1, "compose": "left"}), ("h_angular", {"n": 1, "compose": "right"}),
          ("h_trace_lemma", {"side": "left"}), ("h_trace_lemma", {"side": "right"}), ("h_triangle", {"via": "arrays"}), ("h_triangle", {"via": "rotations"}),
-         ("h_angular_equal", {}), ("h_angular_near", {"delta": 0.02}), ("h_angular_symmetric", {}), ("h_cone", {"n": 1}), ("h_cone", {"n": 2}), ("h_inplane", {}), ("h_inplane", {"equal": True}), ("h_inplane", {"by_value": True}),
+         ("h_angular_equal", {}), ("h_angular_near", {"delta": 0.02}), ("h_angular_symmetric", {}), ("h_cone", {"n": 1}), ("h_cone", {"n": 2}), ("h_cone", {"n": 1, "via": "compare_cone"}), ("h_cone", {"n": 1, "via": "compare_all"}), ("h_inplane", {}), ("h_inplane", {"equal": True}), ("h_inplane", {"by_value": True}),
          ("h_normals_from_angles", {"n": 1}), ("h_normals_from_angles", {"n": 2}),
          ("h_angles_from_normals", {"case": "generic"}), ("h_angles_from_normals", {"case": "z"}), ("h_angles_from_normals", {"case": "xz_plane"}),
          ("h_angles_from_normals", {"case": "y_axis"}), ("h_angles_from_normals", {"case": "generic", "order": "zzx"})]
